@@ -210,9 +210,21 @@ def body_copy(rec, c):
     orig_vals = {f: getattr(path.phasepoints[k], f) for f in ("order", "config", "vel_rev", "vpot", "ekin", "pos", "vel", "box")}
     new_val = {"order": [99.0], "config": ("/y/other", 5), "vel_rev": not path.phasepoints[k].vel_rev,
                "vpot": 1.5, "ekin": 2.5, "pos": [1, 2], "vel": [3], "box": None}[c["field"]]
+    # extremes / classification are functions of the frames as they are now: look, re-assign, look again
+    ext0 = (cp.ordermax[0], cp.ordermin[0], path.ordermax[0], path.ordermin[0])
+    cls0 = path.check_interfaces([-1.0, 0.0, 1.0])
     setattr(cp.phasepoints[k], c["field"], new_val)
     for f, v in orig_vals.items():
         rec.check(getattr(path.phasepoints[k], f) is v, "copy:original-changed", f)
+    ocp = [fr.order[0] for fr in cp.phasepoints]
+    rec.check(cp.ordermax[0] == max(ocp) and cp.ordermin[0] == min(ocp) and cp.phasepoints[cp.ordermax[1]].order[0] == max(ocp) and cp.phasepoints[cp.ordermin[1]].order[0] == min(ocp),
+              "copy:extremes-of-the-copy-do-not-follow-its-frames", f"orders {ocp}: ordermax {cp.ordermax} ordermin {cp.ordermin} (before the re-assignment {ext0[:2]})")
+    rec.check((path.ordermax[0], path.ordermin[0]) == ext0[2:] and path.check_interfaces([-1.0, 0.0, 1.0]) == cls0, "copy:extremes-of-the-original-changed", f"{path.ordermax} {path.ordermin} vs {ext0[2:]}")
+    if c["field"] == "order":
+        rec.cls("copy:order-re-assigned-after-a-look-at-the-extremes")
+        want_cross = [min(ocp) < x <= max(ocp) for x in (-1.0, 0.0, 98.0)]
+        got = cp.check_interfaces([-1.0, 0.0, 98.0])
+        rec.check([bool(x) for x in got[3]] == want_cross, "copy:classification-of-the-copy-does-not-follow-its-frames", f"orders {ocp}: crossings {got[3]} want {want_cross}")
     # growing / shrinking the copy leaves the original
     for fr in c["extra"]:
         cp.append(mk_system(fr))
